@@ -277,4 +277,15 @@ for _f, _id in ((weak_core, "C04.WEAK"), (weak_map, "C04.WEAK-map"), (rcb, "C04.
                 (guard_bypass, "C04.GUARD-bypass"), (rcb_user, "C04.RCB-user"), (data_swap, "C04.DATA-swap")):
     _f.rule_id = _id
 
-RULES = [weak_core, weak_map, rcb, cfgd, guard_bypass, rcb_user, data_swap]
+def dom_end(ctx, prog):
+    """stabilise_end applies the deferred var writes before it tears down dead vars (break_rc_cycle): the other
+    order reaches `did_set_var_while_not_stabilising` on a var whose watch node is gone and panics. Same rule as
+    C08.DOM-end."""
+    from .engine import run_relabelled
+    from .c08 import dom_end as f
+    run_relabelled(ctx, prog, f, "C08.DOM-end", "C04.DOM-end")
+
+
+dom_end.rule_id = "C04.DOM-end"
+
+RULES = [weak_core, weak_map, rcb, cfgd, guard_bypass, rcb_user, data_swap, dom_end]
